@@ -26,7 +26,7 @@ Ltac tcred :=
              | true => change (N.eqb a b) with true
              | false => change (N.eqb a b) with false
              end
-         end; cbv iota; cbn [negb orb andb]; cbv iota.
+         end; cbv iota; cbn [negb orb andb Bool.eqb]; cbv iota.
 
 Lemma eid_ok_parts e : eid_ok e = true -> eid_wf e = true /\ eid_valid e = true.
 Proof. unfold eid_ok. intros H. apply andb_prop in H. exact H. Qed.
@@ -296,7 +296,7 @@ Proof.
     rewrite dec_ext_enc by assumption. cbn [bind]. reflexivity.
   - assert (Hz : (crc =? 0) = false) by lia. rewrite Hz.
     rewrite <- !app_assoc.
-    rd. tcred. rd. rd. rd. rd. replace (2 <? crc) with false by lia.
+    rd. tcred. rd. rd. rd. rd. replace (2 <? crc) with false by lia. rewrite Hz. cbn [negb Bool.eqb].
     rewrite dec_ext_enc by assumption. cbn [bind].
     rewrite (app_assoc (cblock_body _) (crc_field _ _) r).
     rewrite check_crc_ok by exact Hcrc. cbn [bind]. reflexivity.
@@ -342,7 +342,7 @@ Proof.
     rewrite dec_eid_body by assumption. cbn [bind]. rd. tcred. rd. rd. rd. rd. rd. cbn [fst snd]. reflexivity.
   - (* fragment, CRC : 11 elements *)
     assert (Hz : (crc =? 0) = false) by lia. rewrite Hz. cbn [N.add]. rewrite <- !app_assoc.
-    rd. tcred. rd. tcred. rd. rd. replace (2 <? crc) with false by lia.
+    rd. tcred. rd. tcred. rd. rd. replace (2 <? crc) with false by lia. rewrite Hz. cbn [negb Bool.eqb].
     rewrite dec_eid_body by assumption. cbn [bind]. rewrite dec_eid_body by assumption. cbn [bind].
     rewrite dec_eid_body by assumption. cbn [bind]. rd. tcred. rd. rd. rd. rd. rd. cbn [fst snd].
     rewrite (app_assoc (primary_body _) (crc_field _ _) r).
@@ -358,7 +358,7 @@ Proof.
   - (* whole bundle, CRC : 9 elements *)
     cbn [orb] in Hfr. apply andb_prop in Hfr. destruct Hfr as [Ho Ht]. apply N.eqb_eq in Ho, Ht. subst off tot.
     assert (Hz : (crc =? 0) = false) by lia. rewrite Hz. cbn [N.add]. rewrite !app_nil_r. rewrite <- !app_assoc.
-    rd. tcred. rd. tcred. rd. rd. replace (2 <? crc) with false by lia.
+    rd. tcred. rd. tcred. rd. rd. replace (2 <? crc) with false by lia. rewrite Hz. cbn [negb Bool.eqb].
     rewrite dec_eid_body by assumption. cbn [bind]. rewrite dec_eid_body by assumption. cbn [bind].
     rewrite dec_eid_body by assumption. cbn [bind]. rd. tcred. rd. rd. rd. cbn [fst snd].
     rewrite (app_assoc (primary_body _) (crc_field _ _) r).
